@@ -461,6 +461,9 @@ def emit_fn(b, u, m, d, items, idx, info, used_fns, probe_fn):
                 outp = re.sub(r"\bSelf\b", sty, it.get("output", ""))
                 dummy = " #[verifier::external] fn %s%s(%s)%s { unimplemented!() } " % (
                     it["name"], ("<" + gens + ">") if gens else "", inputs, (" -> " + outp) if outp else "")
+        for rx, rp in m.renames:
+            dummy = re.sub(rx, rp, dummy)
+        dummy = re.sub(r"<(\w+): AsRef<str>>", r"<\1>", dummy)
         b.gen(" {" + dummy + " unimplemented!() }\n", "R8")
         info["stubs"].append(full)
         b.rule_counts["R8"] = b.rule_counts.get("R8", 0) + 1
@@ -515,6 +518,9 @@ def fn_inserts(u, m, d, it, info, used_fns, probe_fn):
             outp = re.sub(r"\bSelf\b", sty, it.get("output", ""))
             dummy = " #[verifier::external] fn %s%s(%s)%s { unimplemented!() } " % (
                 it["name"], ("<" + gens + ">") if gens else "", inputs, (" -> " + outp) if outp else "")
+            for rx, rp in m.renames:
+                dummy = re.sub(rx, rp, dummy)
+            dummy = re.sub(r"<(\w+): AsRef<str>>", r"<\1>", dummy)
             ins.append((it["body_start"] + 1, -1, dummy, ("gen", "verus_spec return-name workaround")))
     info["functions"].append({"fn": full, "file": m.file, "line": it["line"], "line_end": it["line_end"], "contract": True, "props": fs.props})
     for lineno, t in fs.spec:
